@@ -1,6 +1,7 @@
 package gen
 
 import (
+	"fmt"
 	"math/big"
 	"strconv"
 	"strings"
@@ -153,11 +154,11 @@ var formatSamples = map[string][]string{
 // FormatProbes: boundary strings per format (both sides and undecided ones).
 var FormatProbes = map[string][]string{
 	"email": {"a@b.co", "john.doe@example.com", "", " a@b.co", "a@b.co ", "<a@b.co>", "ab.co", "a@", "@b.co", "John <a@b.co>", "a b@c.de", "a@b", "a@@b.co", "a@b..co", "a+tag@b.co", "\"q\"@b.co"},
-	"uri": {"http://example.com", "https://a.b/c?d=e#f", "", "example.com", "/relative/path", "//host/path", "http://", "http:///path", "mailto:a@b.co", "http://h/ space", "HTTP://EXAMPLE.COM/", "x://y", "1http://a.b", "http://[::1]/", "http://a.b:8080/p", "file:///etc/passwd", "http://:8080/path", "https://:443/", "http://:/", "http://user:pw@:80/path", "http://user@/path", "http://user@h.x/path", "http://h.x:/p"},
+	"uri":   {"http://example.com", "https://a.b/c?d=e#f", "", "example.com", "/relative/path", "//host/path", "http://", "http:///path", "mailto:a@b.co", "http://h/ space", "HTTP://EXAMPLE.COM/", "x://y", "1http://a.b", "http://[::1]/", "http://a.b:8080/p", "file:///etc/passwd", "http://:8080/path", "https://:443/", "http://:/", "http://user:pw@:80/path", "http://user@/path", "http://user@h.x/path", "http://h.x:/p"},
 	"uuid": {"550e8400-e29b-41d4-a716-446655440000", "{550e8400-e29b-41d4-a716-446655440000}", "urn:uuid:550e8400-e29b-41d4-a716-446655440000", "URN:UUID:550e8400-e29b-41d4-a716-446655440000", "550e8400e29b41d4a716446655440000",
 		"550e8400-e29b-41d4-a716-44665544000", "550e8400-e29b-41d4-a716-4466554400000", "550e8400-e29b-41d4-a716-44665544000g", "550e8400_e29b-41d4-a716-446655440000", "[550e8400-e29b-41d4-a716-446655440000]", "urn:uuix:550e8400-e29b-41d4-a716-446655440000",
 		"550e8400e29b41d4a71644665544000g", "550e8400-e29b41d4-a716-4466554400000", "", "{550e8400-e29b-41d4-a716-446655440000)", "550e8400-e29b-41d4-a716-4466-5440000"},
-	"date": {"2021-01-02", "2020-02-29", "2021-02-29", "2021-02-30", "1900-02-29", "2000-02-29", "2021-13-01", "2021-00-10", "2021-04-31", "2021-04-30", "2021-1-02", "21-01-02", "2021/01/02", "2021-01-02 ", " 2021-01-02", "2021-01-02T00:00:00Z", "2021-01-00", "2021-01-32", "", "0000-01-01", "2021-01-0a"},
+	"date":     {"2021-01-02", "2020-02-29", "2021-02-29", "2021-02-30", "1900-02-29", "2000-02-29", "2021-13-01", "2021-00-10", "2021-04-31", "2021-04-30", "2021-1-02", "21-01-02", "2021/01/02", "2021-01-02 ", " 2021-01-02", "2021-01-02T00:00:00Z", "2021-01-00", "2021-01-32", "", "0000-01-01", "2021-01-0a"},
 	"datetime": {"2021-01-02T07:23:12+03:00", "2021-01-02T07:23:12Z", "2021-01-02T24:00:00Z", "2021-01-02T23:60:00Z", "2021-01-02T23:59:60Z", "2021-01-02T23:59:59", "2021-01-02 07:23:12Z", "2021-01-02t07:23:12z", "2021-01-02T07:23:12+0300", "2021-01-02T07:23:12+03", "2021-02-30T07:23:12Z", "2021-01-02T07:23:12.Z", "2021-01-02T07:23:12.5Z", "2021-01-02T07:23:12,5Z", "2021-01-02T07:23Z", "2021-01-02T7:23:12Z", "2021-01-02", "", "2021-01-02T07:23:12+24:00", "2021-01-02T07:23:12-23:59", "2021-01-02T07:23:12+03:60", "2021-01-02T07:23:12ZZ", "2021-01-02T07:23:12+03:00 "},
 }
 
@@ -215,6 +216,9 @@ func Scalar(r *mon.Rng) *ScalarCase {
 				vals = append(vals, ex)
 			}
 			rules = append(rules, model.REnum(vals...))
+			if r.Chance(1, 3) {
+				rules = append(rules, model.RBool("const", true)) // equality keeps the KIND next to an enum as well
+			}
 			for _, v := range []string{ex, `"` + ex + `"`, "true", `"true"`, "null", `"null"`, "7", "7.0", "7.00", `""`, "false", "8"} {
 				addProbe(litToVal(v))
 			}
@@ -325,6 +329,9 @@ func Scalar(r *mon.Rng) *ScalarCase {
 			d, _ := model.Unquote(ex)
 			n = model.Str(d)
 			rules = append(rules, model.REnum(vals...))
+			if r.Chance(1, 3) {
+				rules = append(rules, model.RBool("const", true))
+			}
 			for _, v := range []string{`"a"`, `"b"`, `"1"`, "1", `"true"`, "true", `"null"`, "null", `""`, `"a\"b"`, `"é"`, "1.0", `"A"`, `"zz"`, `"B"`, "false", "1.00", `"a "`} {
 				addProbe(litToVal(v))
 			}
@@ -375,6 +382,15 @@ func Scalar(r *mon.Rng) *ScalarCase {
 			rules = append(rules, model.RStr("type", "string"))
 		}
 		addProbe(model.VString(ex))
+		// escapes the decoder must take one at a time: an unpaired surrogate followed by another
+		// escape, a pair after a lone high surrogate, the example's first character as \uXXXX
+		for _, lit := range []string{`"\ud800\u0041"`, `"\ud800\ud83d\ude00"`, `"a\udc00"`, `"\ud800A"`, `"\u0041\u0042\u0043"`} {
+			addProbe(model.VRawString(lit))
+		}
+		if ex != "" && ex[0] < 0x80 && ex[0] >= 0x20 {
+			addProbe(model.VRawString(`"\ud800` + fmt.Sprintf("\\u%04x", ex[0]) + model.Quote(ex[1:])[1:]))
+			addProbe(model.VRawString(`"` + fmt.Sprintf("\\u%04X", ex[0]) + model.Quote(ex[1:])[1:]))
+		}
 	case kind < 9: // booleans
 		b := r.Bool()
 		n = model.Bool(b)
@@ -386,6 +402,9 @@ func Scalar(r *mon.Rng) *ScalarCase {
 		}
 		if len(rules) == 0 || r.Chance(1, 4) {
 			rules = []*model.Rule{model.REnum(strconv.FormatBool(b), `"`+strconv.FormatBool(b)+`"`, "1")}
+			if r.Bool() {
+				rules = append(rules, model.RBool("const", true))
+			}
 		}
 		addProbe(model.VBoolean(true))
 		addProbe(model.VBoolean(false))
@@ -403,6 +422,9 @@ func Scalar(r *mon.Rng) *ScalarCase {
 		}
 		if r.Chance(1, 3) {
 			rules = []*model.Rule{model.REnum("null", `"null"`, "0")}
+			if r.Bool() {
+				rules = append(rules, model.RBool("const", true))
+			}
 		}
 		addProbe(model.VString("null"))
 		addProbe(model.VNumber("0"))
